@@ -30,6 +30,13 @@
 (*   T text marker | V variable output | S {{ block.super }} | Bo(name,req)    *)
 (*   .. Bc(endname) block | Fo .. Fc  for-loop over two items | Io .. Ic  a    *)
 (*   transparent wrapper rendered once (if/unless/case/with/...).              *)
+(* Every template and every block body starts with a text marker (so a child   *)
+(* always has text after its extends tag and every definition shows in the     *)
+(* output); the family is bounded by budgets for the whole chain (blocks,      *)
+(* extras, required flags, anomalies and their sum) rather than per template,  *)
+(* so that small chains carry every combination and long chains stay few.      *)
+(* Ghosts: chk (facts of the finished chain, computed once), sel (last block / *)
+(* super selection), nstacked, acts (names of the actions taken; emitted).     *)
 EXTENDS Naturals, Sequences, FiniteSets, TLC, Json
 
 CONSTANTS MaxChain,      \* chain length 1..MaxChain
